@@ -166,6 +166,7 @@ def main() -> int:
         "oracle_violations": len(violations),
         "known_findings_matched": sorted(known_hit),
         "partial": reg.get("partial", []),
+        "exhaustive_small_scope": [sname for sname, _ in reg["suites"] if args.tier == "thorough" and hasattr(common.get_suite(sname), "exhaustive")],
         "leanchecker": checker_note,
         "repo": str(common.REPO),
     }
